@@ -69,11 +69,13 @@ class Facts:
         return False
 
     def descendants(self, tag):
-        out, st = [], [tag]
+        out, st, seen = [], [tag], {tag}
         while st:
             for c in self.children.get(st.pop(), []):
-                out.append(c)
-                st.append(c)
+                if c not in seen:
+                    seen.add(c)
+                    out.append(c)
+                    st.append(c)
         return out
 
     # -- handlers
